@@ -195,6 +195,47 @@ impl Op {
             }
         })
     }
+    /// Like `run`; for a composition the progress-display variant (`VERBOSE = true`) is additionally run
+    /// on a copy. Both variants must leave identical arenas; a difference is reported as Err("VARIANT: ..").
+    pub fn run_both(&self, t: &mut AffTree<2>, d: usize) -> Result<(), String> {
+        if let Op::Compose(g, prune) = self {
+            let mut v = t.clone();
+            let gt = g.build(d);
+            let rv = catch(|| {
+                if *prune {
+                    v.compose::<true, true>(&gt)
+                } else {
+                    v.compose::<false, true>(&gt)
+                }
+            });
+            let r = self.run(t, d);
+            if r.is_ok() {
+                match rv {
+                    Err(m) => return Err(format!("VARIANT: compose::<{prune}, true> panicked where compose::<{prune}, false> did not: {m}")),
+                    Ok(()) => {
+                        let (a, b) = (crate::snap::snap(t), crate::snap::snap(&v));
+                        if a != b {
+                            return Err(format!(
+                                "VARIANT: compose::<{prune}, true> and compose::<{prune}, false> leave different trees ({} vs {} nodes)",
+                                b.nodes.len(),
+                                a.nodes.len()
+                            ));
+                        }
+                    }
+                }
+            }
+            r
+        } else {
+            self.run(t, d)
+        }
+    }
+    /// (kind tag, text) for an Err of `run_both`
+    pub fn failure(&self, msg: &str) -> (&'static str, String) {
+        match msg.strip_prefix("VARIANT: ") {
+            Some(m) => ("variant", m.to_string()),
+            None => ("panic", format!("{} panicked: {msg}", self.name())),
+        }
+    }
     /// the same step without pruning (reference track)
     pub fn unpruned(&self) -> Option<Op> {
         match self {
@@ -230,6 +271,9 @@ pub enum Init {
     FromPoly(Vec<(Vec<f64>, f64)>, Aff, Option<Aff>),
     Schema(GSpec, usize),
     Spec(TSpec),
+    /// the inner constructor result whose root cache a user filled with sample inputs; every point is a valid
+    /// witness of the root, whose path region is the whole input space
+    Seeded(Box<Init>, Vec<Vec<f64>>),
 }
 
 impl Init {
@@ -243,6 +287,12 @@ impl Init {
             }
             Init::Schema(g, d) => g.build(*d),
             Init::Spec(t) => t.build::<2>(),
+            Init::Seeded(i, pts) => {
+                let mut t = i.build();
+                t.tree.node_value_mut(0).unwrap().state =
+                    affinitree::pwl::node::NodeState::FeasibleWitness(pts.iter().map(|p| Array1::from(p.clone())).collect());
+                t
+            }
         }
     }
     pub fn out_dim(&self) -> usize {
@@ -252,6 +302,7 @@ impl Init {
             Init::FromPoly(_, t, _) => t.outdim(),
             Init::Schema(g, d) => g.out_dim(*d),
             Init::Spec(t) => t.out_dim().unwrap(),
+            Init::Seeded(i, _) => i.out_dim(),
         }
     }
     pub fn in_dim(&self) -> usize {
@@ -261,6 +312,7 @@ impl Init {
             Init::FromPoly(rows, _, _) => rows[0].0.len(),
             Init::Schema(_, d) => *d,
             Init::Spec(t) => t.aff().indim,
+            Init::Seeded(i, _) => i.in_dim(),
         }
     }
     pub fn to_json(&self) -> Value {
@@ -270,6 +322,7 @@ impl Init {
             Init::FromPoly(r, t, e) => json!({"from_poly": {"rows": r, "f_true": t.to_json(), "f_false": e.as_ref().map(|x| x.to_json())}}),
             Init::Schema(g, d) => json!({"schema": g.to_json(), "dim": d}),
             Init::Spec(t) => json!({"tree": t.to_json()}),
+            Init::Seeded(i, pts) => json!({"seeded_root_witnesses": pts, "of": i.to_json()}),
         }
     }
 }
